@@ -78,11 +78,18 @@ def check_month_leap(run, fx, rs):
             except H.Panic as p:
                 r = "panic"
             if m == 2:
-                s = show(r)
-                ok = isinstance(r, H.Sym) and r.what == "bin+" and r.parts[0] == 28 and "mathematical_in_leap_year" in s \
-                    and "$year" in s
-                run.check(ok, rule, "2", "February = %s" % s[:90], "February length is %s; expected 28 + leap flag of the "
-                          "same year" % s[:120], f.loc)
+                # February: folded with everything inlined for one year per feasible valuation of the divisibility atoms
+                # (4 | y, 100 | y, 400 | y) and both signs - the value, not the shape of the expression, is compared
+                ev2 = H.Evaluator(fx)
+                bad = []
+                for y in (1, 2, 3, 4, 8, 100, 200, 300, 400, 800, 1900, 2000, 2023, 2024, 0, -1, -4, -100, -400, -271820, 275760):
+                    want = 29 if (y % 4 == 0 and (y % 100 != 0 or y % 400 == 0)) else 28
+                    k, v = fold(ev2, f, [y, 2])
+                    if not (k == "val" and v == want):
+                        bad.append("%d -> %s %s (expected %d)" % (y, k, v, want))
+                run.check(not bad and "$year" in show(r), rule, "2", "February = 28 + leap flag of the same year (21 years folded)",
+                          "February length is wrong: %s" % "; ".join(bad[:4]) if bad else
+                          "February length does not depend on the year: %s" % show(r)[:80], f.loc)
             else:
                 want = 31 if m in (1, 3, 5, 7, 8, 10, 12) else 30
                 run.check(r == want, rule, str(m), "month %d = %s" % (m, r), "month %d has %s days, expected %d" % (m, r, want),
